@@ -409,6 +409,12 @@ func UtxoValidateInsufficientCollateral(
 			totalCollateral.Add(totalCollateral, amount)
 		}
 	}
+	// The collateral balance is what remains after the collateral return
+	if collReturn := tx.CollateralReturn(); collReturn != nil {
+		if amount := collReturn.Amount(); amount != nil {
+			totalCollateral.Sub(totalCollateral, amount)
+		}
+	}
 	// minCollateral = fee * collateralPercentage / 100
 	fee := tmpTx.Fee()
 	if fee == nil {
